@@ -91,16 +91,21 @@ func addEscapeResources(s *Sim, r *rand.Rand) {
 	w := s.W
 	name := "ex.esc"
 	st := &State{Kind: 'm', Model: map[string]Val{
-		`a"b`:        prim(`"quo\"te"`),
-		`back\slash`: prim(`"b\\s"`),
-		"unié":       prim(`"é世"`),
-		"<tag>&":     prim(`"<b>&amp;"`),
-		"nl\n":       prim(`"line\nbreak"`),
-		"data":       dataVal(`{"deep":[1,{"x":null}],"s":" "}`),
-		"arr":        dataVal(`[[],{}]`),
-		"num":        prim(`-0.5e3`),
-		"self":       ref(name),
-		"soft":       soft("ex.esc.other"),
+		`a"b`:           prim(`"quo\"te"`),
+		`back\slash`:    prim(`"b\\s"`),
+		"unié":          prim(`"é世"`),
+		"<tag>&":        prim(`"<b>&amp;"`),
+		"nl\n":          prim(`"line\nbreak"`),
+		"data":          dataVal(`{"deep":[1,{"x":null}],"s":" "}`),
+		"arr":           dataVal(`[[],{}]`),
+		"num":           prim(`-0.5e3`),
+		"bel\a":         prim(`"\u0007"`),
+		"nul\x00":       prim(`"x"`),
+		"del\x7f":       prim(`"\u007f"`),
+		"tag\U000e0001": prim(`1`),
+		"vt\v\f":        prim(`2`),
+		"self":          ref(name),
+		"soft":          soft("ex.esc.other"),
 	}}
 	res := &Res{Name: name, Kind: 'm', V: map[string]*Variant{}}
 	res.V[""] = &Variant{Name: name, Actual: st}
@@ -196,6 +201,12 @@ func hostilePath(s *Sim, api, valid string) string {
 		api + "ex/*", api + "ex/%2A", api + "ex/>", api + "ex/%3E", api + "ex/m0%3Fa", api + "ex/%", api + "ex/%zz", api + "ex/m%C3%A40",
 		api + "ex/m\xff0", api + "ex/" + strings.Repeat("a", 300), api + "ex/%00", api + "ex/\t", "/other/ex/m0", "ex/m0", api[:len(api)-1],
 		api + "ex/m0/%2E", api + "ex/m0/a.b", api + "ex/{cid}", api + "ex/%7Bcid%7D",
+	}
+	// a percent-encoded character inside the apiPath part: the router works on
+	// the decoded path, the resource id is taken from the raw one
+	if len(api) > 1 {
+		i := 1 + s.pick(len(api)-1)
+		bad = append(bad, api[:i]+fmt.Sprintf("%%%02X", api[i])+api[i+1:]+"ex/m0", api[:i]+fmt.Sprintf("%%%02x", api[i])+api[i+1:]+"ex/m0/set")
 	}
 	return pickOne(s, bad)
 }
